@@ -696,7 +696,9 @@ class VariantRecord:
                             corrupt = True
                         cc[k] = (None,)
                     else:
-                        cc[k] = (".",) if i == n - 1 else (None,)
+                        # (refined while validating the re-phasing fix: only an empty field at the very END of the line -
+                        #  last FORMAT key of the last sample - re-reads as ('.',); followed by ':' or a tab it is (None,))
+                        cc[k] = (".",) if (i == n - 1 and k == self._fmt[-1]) else (None,)
                 elif meta["Number"] != "1" and meta["Type"] != "String":
                     raise Unsupported("pysam model: serialisation of %s (%s vector)" % (k, meta["Type"]))
                 else:
